@@ -232,3 +232,241 @@ Theorem old_optional_merge_refuted :
 Proof.
   exists (literal_schema [LInt 1]), (JS [KwType [JNull]]), PNone. repeat split. vm_compute. discriminate.
 Qed.
+
+(* ------------------------------------------------------------------ C17: the references of a generated schema are closed *)
+(* names referenced by a schema *)
+Fixpoint refs_in (s : js) : list string :=
+  match s with
+  | JBoolS _ => []
+  | JS kws =>
+      flat_map (fun k =>
+        match k with
+        | KwRef _ n => [n]
+        | KwItems s' | KwAddItems s' | KwAddProps s' | KwPropertyNames s' => refs_in s'
+        | KwPrefixItems l | KwItemsArr l | KwAnyOf l | KwAllOf l | KwOneOf l => flat_map refs_in l
+        | KwProperties ps | KwPatternProps ps => flat_map (fun p => refs_in (snd p)) ps
+        | _ => []
+        end) kws
+  end.
+
+From AV Require Import Deser.Loops.
+
+Lemma refs_in_merge_kw c kws : refs_in (JS (merge_kw c kws)) = refs_in (JS kws).
+Proof.
+  unfold merge_kw.
+  destruct (match c with KUnique => has_set_unique kws | _ => false end).
+  - cbn [refs_in]. induction kws as [|k r IH]; [reflexivity|]. cbn [map flat_map]. rewrite IH. destruct k; reflexivity.
+  - destruct (has_kind c kws).
+    + cbn [refs_in]. induction kws as [|k r IH]; [reflexivity|]. cbn [map flat_map]. rewrite IH.
+      destruct k; try reflexivity. destruct (same_kind c c0); reflexivity.
+    + cbn [refs_in]. rewrite flat_map_app. cbn [flat_map]. now rewrite !app_nil_r.
+Qed.
+
+Lemma refs_in_apply_con c s : refs_in (apply_con c s) = refs_in s.
+Proof.
+  destruct c as [c|]; [|reflexivity]. destruct s as [b|kws]; [reflexivity|]. cbn [apply_con].
+  generalize (all_cons c) as l. intros l. revert kws. induction l as [|k r IH]; intros kws; [reflexivity|].
+  cbn [fold_left]. rewrite IH. apply refs_in_merge_kw.
+Qed.
+
+Lemma refs_in_add_null s : refs_in (add_null s) = refs_in s.
+Proof.
+  destruct s as [b|kws]; [reflexivity|]. cbn [add_null refs_in].
+  induction kws as [|k r IH]; [reflexivity|]. cbn [map flat_map]. rewrite IH. destruct k; try reflexivity.
+  destruct (memt JNull ts); reflexivity.
+Qed.
+
+Lemma refs_in_visited_union rs n :
+  In n (refs_in (visited_union rs)) -> exists r, In r rs /\ In n (refs_in r).
+Proof.
+  unfold visited_union. destruct rs as [|r1 [|r2 rest]]; [intros []| intros H; exists r1; split; [left; reflexivity|exact H] |].
+  set (rs := r1 :: r2 :: rest).
+  assert (Hany : In n (refs_in (JS [KwAnyOf rs])) -> exists r, In r rs /\ In n (refs_in r)).
+  { cbn [refs_in flat_map]. rewrite app_nil_r. intros H. apply in_flat_map in H. exact H. }
+  destruct (existsb is_empty rs); [intros []|].
+  destruct (forallb _ rs); [cbn; intros []|].
+  destruct rest as [|r3 rest']; [|exact Hany].
+  destruct (_ && _ && _); [|exact Hany].
+  rewrite refs_in_add_null. intros H. destruct (is_null_schema r1).
+  - exists r2. split; [right; left; reflexivity|exact H].
+  - exists r1. split; [left; reflexivity|exact H].
+Qed.
+
+Lemma refs_in_literal vs : refs_in (literal_schema vs) = [].
+Proof. unfold literal_schema. destruct vs as [|v [|v' r]]; reflexivity. Qed.
+
+Lemma names_refs key m :
+  In m (refs_in (JS match key with JS [KwType _] => [] | _ => [KwPropertyNames key] end)) -> In m (refs_in key).
+Proof.
+  destruct key as [b|[|k0 [|k1 kr]]]; try (cbn; rewrite ?app_nil_r; tauto).
+  all: destruct k0; cbn; rewrite ?app_nil_r; tauto.
+Qed.
+
+Section Closed.
+  Variable u : univ.
+  Variable o : dopts.
+  Variable refs : string -> bool.
+
+  Lemma In_elems_sorted cd f : In f (elems_sorted cd) -> In f (cd_fields cd).
+  Proof.
+    unfold elems_sorted. destruct (sort_by_order _ _) as [sorted|]; [|auto].
+    intros H. apply in_flat_map in H. destruct H as [x [_ Hx]].
+    destruct (find _ (cd_fields cd)) as [f'|] eqn:E; [|destruct Hx].
+    destruct Hx as [<-|[]]. apply find_some in E. exact (proj1 E).
+  Qed.
+
+  (* unfolding equations of the builder *)
+  Lemma build_prim fuel ign t :
+    match t with TNone | TBool | TInt | TFloat | TStr | TAny | TLit _ => True | _ => False end ->
+    refs_in (build u o refs fuel ign t) = [].
+  Proof. destruct fuel; destruct t; try contradiction; intros _; try reflexivity; apply refs_in_literal. Qed.
+
+  Lemma build_TColl fuel ign k t' :
+    build u o refs fuel ign (TColl k t') =
+    let items := build u o refs fuel false t' in
+    JS ([KwType [JArray]] ++ (if is_empty items then [] else [KwItems items])
+        ++ match norm_kind k with KSet | KFrozenSet => [KwSetUnique] | _ => [] end).
+  Proof. destruct fuel; reflexivity. Qed.
+
+  Lemma build_TTuple fuel ign ts :
+    build u o refs fuel ign (TTuple ts) =
+    let ss := map (build u o refs fuel false) ts in
+    JS ([KwType [JArray]] ++ (match ss with [] => [] | _ => [KwPrefixItems ss] end)
+        ++ [KwItems (JBoolS false); KwCon (KMinItems (List.length ts)); KwCon (KMaxItems (List.length ts))]).
+  Proof.
+    assert (H : forall l, (fix all (ts : list ty) : list js :=
+                       match ts with [] => [] | t1 :: tr => build u o refs fuel false t1 :: all tr end) l
+                    = map (build u o refs fuel false) l).
+    { induction l as [|x r IH]; [reflexivity|]. now rewrite IH. }
+    cbv zeta. rewrite <- H. destruct fuel; reflexivity.
+  Qed.
+
+  Lemma build_TMap fuel ign kt vt :
+    build u o refs fuel ign (TMap kt vt) =
+    let key := build u o refs fuel true kt in
+    let value := build u o refs fuel false vt in
+    let names := match key with JS [KwType _] => [] | _ => [KwPropertyNames key] end in
+    match get_pattern key with
+    | Some p => JS ([KwType [JObject]; KwPatternProps [(p, value)]] ++ names)
+    | None => JS ([KwType [JObject]] ++ (if is_empty value then [] else [KwAddProps value]) ++ names)
+    end.
+  Proof. destruct fuel; reflexivity. Qed.
+
+  Lemma build_TEnum fuel ign e :
+    build u o refs fuel ign (TEnum e) =
+    if (refs (ename_ e) && negb ign)%bool then JS [KwRef true (ename_ e)] else literal_schema (get_enum u e).
+  Proof. destruct fuel; reflexivity. Qed.
+
+  Lemma build_TCon fuel ign c t' : build u o refs fuel ign (TCon c t') = apply_con (Some c) (build u o refs fuel ign t').
+  Proof. destruct fuel; reflexivity. Qed.
+
+  Lemma build_TUnion fuel ign ts :
+    build u o refs fuel ign (TUnion ts) = visited_union (map (build u o refs fuel false) ts).
+  Proof.
+    assert (H : forall l, (fix all (ts : list ty) : list js :=
+                       match ts with [] => [] | t1 :: tr => build u o refs fuel false t1 :: all tr end) l
+                    = map (build u o refs fuel false) l).
+    { induction l as [|x r IH]; [reflexivity|]. now rewrite IH. }
+    rewrite <- H. destruct fuel; reflexivity.
+  Qed.
+
+  Definition object_schema (f : nat) (c : nat) : js :=
+    let cd := get_cls u c in
+    let fields := elems_sorted cd in
+    let props := map (fun fd => (o_aliaser o (fd_alias fd), apply_con (fd_con fd) (build u o refs f false (fd_ty fd)))) fields in
+    let required := map (fun fd => o_aliaser o (fd_alias fd)) (filter fd_required fields) in
+    let dr := depreq_schema o cd in
+    JS ([KwType [JObject]]
+        ++ (match props with [] => [] | _ => [KwProperties props] end)
+        ++ (match required with [] => [] | _ => [KwRequired required] end)
+        ++ (if o_addprops o then [] else [KwAddProps (JBoolS false)])
+        ++ (match dr with [] => [] | _ => [KwDepReq dr] end)).
+
+  Lemma build_TObj fuel ign c :
+    build u o refs fuel ign (TObj c) =
+    if (refs (cname c) && negb ign)%bool then JS [KwRef false (cname c)]
+    else match fuel with O => JBoolS true | S f => object_schema f c end.
+  Proof. destruct fuel; reflexivity. Qed.
+
+  Lemma in_refs_flat (l : list js) n : In n (flat_map refs_in l) -> exists s, In s l /\ In n (refs_in s).
+  Proof. intros H. apply in_flat_map in H. exact H. Qed.
+
+  (* every "$ref" the builder emits names a reference of the extracted set *)
+  Theorem build_refs_in_refs : forall fuel t ign n, In n (refs_in (build u o refs fuel ign t)) -> refs n = true.
+  Proof.
+    assert (Inner : forall fuel,
+      (forall c ign n, In n (refs_in (build u o refs fuel ign (TObj c))) -> refs n = true) ->
+      forall t ign n, In n (refs_in (build u o refs fuel ign t)) -> refs n = true).
+    { intros fuel Hobj. induction t using ty_ind'; intros ign n;
+        try (rewrite build_prim by exact I; intros []).
+      - (* coll *) rewrite build_TColl. cbv zeta. cbn [refs_in]. rewrite !flat_map_app. intros H.
+        apply in_app_or in H. destruct H as [H|H]; [cbn in H; tauto|].
+        apply in_app_or in H. destruct H as [H|H].
+        + destruct (is_empty _); [destruct H|]. cbn [flat_map] in H. rewrite app_nil_r in H. eapply IHt; exact H.
+        + destruct (norm_kind k); cbn in H; tauto.
+      - (* tuple *) rewrite build_TTuple. cbv zeta. cbn [refs_in]. rewrite !flat_map_app. intros Hn.
+        apply in_app_or in Hn. destruct Hn as [Hn|Hn]; [cbn in Hn; tauto|].
+        apply in_app_or in Hn. destruct Hn as [Hn|Hn]; [|cbn in Hn; tauto].
+        destruct (map _ ts) as [|s0 sr] eqn:E; [destruct Hn|]. rewrite <- E in Hn. cbn [flat_map] in Hn. rewrite app_nil_r in Hn.
+        apply in_refs_flat in Hn. destruct Hn as [s [Hs Hn]]. apply in_map_iff in Hs. destruct Hs as [t0 [<- Ht0]].
+        rewrite Forall_forall in H. eapply H; eassumption.
+      - (* map *) rewrite build_TMap. cbv zeta.
+        set (key := build u o refs fuel true t1). set (value := build u o refs fuel false t2).
+        assert (Hnames : forall m, In m (refs_in (JS match key with JS [KwType _] => [] | _ => [KwPropertyNames key] end)) -> refs m = true).
+        { intros m Hm. apply names_refs in Hm. eapply IHt1; exact Hm. }
+        destruct (get_pattern key).
+        + cbn [refs_in]. rewrite flat_map_app. intros Hn. apply in_app_or in Hn. destruct Hn as [Hn|Hn].
+          * cbn in Hn. rewrite !app_nil_r in Hn. eapply IHt2; exact Hn.
+          * apply Hnames. exact Hn.
+        + cbn [refs_in]. rewrite !flat_map_app. intros Hn. apply in_app_or in Hn. destruct Hn as [Hn|Hn]; [cbn in Hn; tauto|].
+          apply in_app_or in Hn. destruct Hn as [Hn|Hn].
+          * destruct (is_empty value); [destruct Hn|]. cbn in Hn. rewrite app_nil_r in Hn. eapply IHt2; exact Hn.
+          * apply Hnames. exact Hn.
+      - (* enum *) rewrite build_TEnum. destruct (refs (ename_ e) && negb ign)%bool eqn:E.
+        + cbn. intros [<-|[]]. apply andb_true_iff in E. tauto.
+        + rewrite refs_in_literal. intros [].
+      - (* con *) rewrite build_TCon, refs_in_apply_con. apply IHt.
+      - (* union *) rewrite build_TUnion. intros Hn. apply refs_in_visited_union in Hn. destruct Hn as [r [Hr Hn]].
+        apply in_map_iff in Hr. destruct Hr as [t0 [<- Ht0]]. rewrite Forall_forall in H. eapply H; eassumption.
+      - (* obj *) apply Hobj. }
+    induction fuel as [|f IHf]; apply Inner; intros c ign n; rewrite build_TObj;
+      (destruct (refs (cname c) && negb ign)%bool eqn:E; [cbn; intros [<-|[]]; apply andb_true_iff in E; tauto|]).
+    - intros [].
+    - unfold object_schema. cbn [refs_in]. rewrite !flat_map_app. intros Hn.
+      repeat (apply in_app_or in Hn; destruct Hn as [Hn|Hn]); try (cbn in Hn; tauto).
+      + destruct (map _ (elems_sorted (get_cls u c))) as [|p0 pr] eqn:Ep; [destruct Hn|]. rewrite <- Ep in Hn.
+        cbn [flat_map] in Hn. rewrite app_nil_r in Hn. apply in_flat_map in Hn. destruct Hn as [p [Hp Hn]].
+        apply in_map_iff in Hp. destruct Hp as [fd [<- Hfd]]. cbn [snd] in Hn. rewrite refs_in_apply_con in Hn.
+        eapply IHf; exact Hn.
+      + destruct (map _ (filter fd_required _)); cbn in Hn; tauto.
+      + destruct (o_addprops o); cbn in Hn; tauto.
+      + destruct (depreq_schema o (get_cls u c)); cbn in Hn; tauto.
+  Qed.
+End Closed.
+
+Lemma def_lookup_app n (a b : defs) : def_lookup n (a ++ b)%list = match def_lookup n a with Some s => Some s | None => def_lookup n b end.
+Proof. induction a as [|[m s] r IH]; [reflexivity|]. cbn [app def_lookup]. destruct (String.eqb m n); [reflexivity|exact IH]. Qed.
+
+Lemma def_lookup_map_in {A} (name : A -> string) (body : A -> js) (l : list A) x :
+  In x l -> def_lookup (name x) (map (fun y => (name y, body y)) l) <> None.
+Proof.
+  induction l as [|y r IH]; [intros []|]. intros [->|H]; cbn [map def_lookup].
+  - now rewrite String.eqb_refl.
+  - destruct (String.eqb (name y) (name x)); [discriminate|]. now apply IH.
+Qed.
+
+(* the definitions emitted next to the schema define every extracted reference (of the listed classes / enums) *)
+Theorem defs_define_refs u o refs fuel classes enums n :
+  refs n = true ->
+  (exists c, In c classes /\ n = cname c) \/ (exists e, In e enums /\ n = ename_ e) ->
+  def_lookup n (defs_for u o refs fuel classes enums) <> None.
+Proof.
+  intros Hr H. unfold defs_for. rewrite def_lookup_app.
+  destruct H as [[c [Hc ->]]|[e [He ->]]].
+  - assert (H : def_lookup (cname c) (map (fun c0 => (cname c0, build u o refs fuel true (TObj c0)))
+                                          (filter (fun c0 => refs (cname c0)) classes)) <> None).
+    { apply (def_lookup_map_in cname). apply filter_In. split; assumption. }
+    destruct (def_lookup (cname c) _); [discriminate|contradiction].
+  - destruct (def_lookup (ename_ e) (map _ (filter _ classes))); [discriminate|].
+    apply (def_lookup_map_in ename_). apply filter_In. split; assumption.
+Qed.
